@@ -56,10 +56,20 @@ fn parse_infix(naming: NamingK, infix: &str) -> Option<(Role, (u8, String, i64))
         }
         None => (infix, -1),
     };
-    let parsed = chrono::NaiveDateTime::parse_from_str(main, fmt).ok()?;
     // the format must reproduce the text exactly (no sloppy matches)
-    if parsed.format(fmt).to_string() != main {
-        return None;
+    match chrono::NaiveDateTime::parse_from_str(main, fmt) {
+        Ok(parsed) => {
+            if parsed.format(fmt).to_string() != main {
+                return None;
+            }
+        }
+        Err(_) => {
+            // a format without time of day
+            let d = chrono::NaiveDate::parse_from_str(main, fmt).ok()?;
+            if d.format(fmt).to_string() != main {
+                return None;
+            }
+        }
     }
     Some((Role::Rotated, (0, main.to_string(), restart)))
 }
